@@ -18,6 +18,7 @@ import (
 	"mellium.im/xmpp/commands"
 	"mellium.im/xmpp/disco"
 	"mellium.im/xmpp/disco/items"
+	"mellium.im/xmpp/form"
 	"mellium.im/xmpp/history"
 	"mellium.im/xmpp/ibb"
 	"mellium.im/xmpp/jid"
@@ -210,7 +211,11 @@ func c09Mux(rc *RC, e *E2, ns string) (xmpp.Handler, *ibb.Handler, *history.Hand
 		disco.Handle(),
 		disco.HandleCaps(func(stanza.Presence, disco.Caps) {}),
 		roster.Handle(roster.Handler{Push: func(string, roster.Item) error { return nil }}),
-		blocklist.Handle(blocklist.Handler{Block: func(blocklist.Item) {}, Unblock: func(jid.JID) {}, UnblockAll: func() {}, List: func(c chan<- jid.JID) { c <- jid.MustParse("x@y.example") }}),
+		blocklist.Handle(blocklist.Handler{Block: func(blocklist.Item) {}, Unblock: func(jid.JID) {}, UnblockAll: func() {}, List: func(c chan<- jid.JID) {
+			for _, j := range []string{"x@y.example", "z.example", "q@y.example/r"} {
+				c <- jid.MustParse(j)
+			}
+		}}),
 		version.Handle(version.Query{Name: "n", Version: "1", OS: "os"}),
 		xtime.Handle(xtime.Handler{}),
 		bin.Handle(bin.Handler{}),
@@ -375,6 +380,9 @@ func drain(next func() bool, err func() error, closeF func() error) error {
 
 var c09To = jid.MustParse("svc.example.net")
 
+// c09Hist is the history handler registered in the current run's multiplexer.
+var c09Hist *history.Handler
+
 var c09Helpers_ = []c09Helper{
 	{"disco.GetInfo", func(ctx context.Context, s *xmpp.Session) error {
 		i, err := disco.GetInfo(ctx, "node", c09To, s)
@@ -428,6 +436,79 @@ var c09Helpers_ = []c09Helper{
 		_, err := bin.Get(ctx, s, c09To, "sha1+8f35fef110ffc5df08d579a50083ff9308fb6242@bob.xmpp.org")
 		return err
 	}},
+	{"commands.Execute", func(ctx context.Context, s *xmpp.Session) error {
+		_, r, err := commands.Command{JID: c09To, Node: "cfg"}.Execute(ctx, nil, s)
+		if err != nil {
+			return err
+		}
+		for i := 0; i < 200; i++ {
+			if _, err := r.Token(); err != nil {
+				break
+			}
+		}
+		return r.Close()
+	}},
+	{"commands.ForEach", func(ctx context.Context, s *xmpp.Session) error {
+		n := 0
+		return commands.Command{JID: c09To, Node: "cfg"}.ForEach(ctx, nil, s, func(r commands.Response, p xml.TokenReader) (commands.Command, xml.TokenReader, error) {
+			for i := 0; i < 200; i++ {
+				if _, err := p.Token(); err != nil {
+					break
+				}
+			}
+			if n++; n > 4 {
+				return r.Cancel(), nil, nil
+			}
+			return r.Next(), nil, nil
+		})
+	}},
+	{"pubsub.Publish", func(ctx context.Context, s *xmpp.Session) error {
+		_, err := pubsub.Publish(ctx, s, "n", "", xmlstream.Wrap(nil, xml.StartElement{Name: xml.Name{Space: "urn:e", Local: "entry"}}))
+		return err
+	}},
+	{"pubsub.CreateNode", func(ctx context.Context, s *xmpp.Session) error { return pubsub.CreateNode(ctx, s, "n", nil) }},
+	{"pubsub.GetConfig", func(ctx context.Context, s *xmpp.Session) error { _, err := pubsub.GetConfig(ctx, s, "n"); return err }},
+	{"pubsub.GetDefaultConfig", func(ctx context.Context, s *xmpp.Session) error {
+		_, err := pubsub.GetDefaultConfig(ctx, s)
+		return err
+	}},
+	{"pubsub.Delete", func(ctx context.Context, s *xmpp.Session) error { return pubsub.Delete(ctx, s, "n", "i1", true) }},
+	{"roster.Set", func(ctx context.Context, s *xmpp.Session) error {
+		return roster.Set(ctx, s, roster.Item{JID: jid.MustParse("a@b.example"), Name: "A", Group: []string{"G"}})
+	}},
+	{"roster.Delete", func(ctx context.Context, s *xmpp.Session) error {
+		return roster.Delete(ctx, s, jid.MustParse("a@b.example"))
+	}},
+	{"bookmarks.Publish", func(ctx context.Context, s *xmpp.Session) error {
+		return bookmarks.Publish(ctx, s, bookmarks.Channel{JID: jid.MustParse("room@conf.example.net"), Name: "n", Nick: "me", Autojoin: true})
+	}},
+	{"bookmarks.Delete", func(ctx context.Context, s *xmpp.Session) error {
+		return bookmarks.Delete(ctx, s, jid.MustParse("room@conf.example.net"))
+	}},
+	{"disco.WalkItem", func(ctx context.Context, s *xmpp.Session) error {
+		n := 0
+		return disco.WalkItem(ctx, items.Item{JID: c09To}, s, func(level int, item items.Item, err error) error {
+			if n++; n > 12 || level > 3 {
+				return disco.ErrSkipItem
+			}
+			return err
+		})
+	}},
+	{"blocklist.Add", func(ctx context.Context, s *xmpp.Session) error {
+		return blocklist.Add(ctx, s, jid.MustParse("a@b.example"))
+	}},
+	{"blocklist.Remove", func(ctx context.Context, s *xmpp.Session) error { return blocklist.Remove(ctx, s) }},
+	{"blocklist.Report", func(ctx context.Context, s *xmpp.Session) error {
+		return blocklist.Report(ctx, s, blocklist.Item{JID: jid.MustParse("a@b.example"), Reason: blocklist.ReasonSpam, Text: "t"})
+	}},
+	{"muc.SetConfig", func(ctx context.Context, s *xmpp.Session) error {
+		return muc.SetConfig(ctx, jid.MustParse("room@conf.example.net"), form.New(form.Title("t")), s)
+	}},
+	{"carbons.Disable", func(ctx context.Context, s *xmpp.Session) error { return carbons.Disable(ctx, s) }},
+	{"history.Handler.Fetch", func(ctx context.Context, s *xmpp.Session) error {
+		it := c09Hist.Fetch(ctx, history.Query{ID: "q2"}, c09To, s)
+		return drain(it.Next, it.Err, it.Close)
+	}},
 	{"UnmarshalIQ", func(ctx context.Context, s *xmpp.Session) error {
 		var v struct {
 			XMLName xml.Name `xml:"jabber:iq:version query"`
@@ -456,6 +537,11 @@ var c09Replies = []string{
 	`<fin xmlns='urn:xmpp:mam:2' complete='true' stable='false'><set xmlns='http://jabber.org/protocol/rsm'><first index='0'>a</first><last>b</last><count>2</count></set></fin>`,
 	`<query xmlns='http://jabber.org/protocol/muc#owner'><x xmlns='jabber:x:data' type='form'><title>t</title><instructions>i</instructions><field var='a' type='text-single' label='l'><desc>d</desc><required/><value>v</value></field><field var='b' type='boolean'><value>1</value></field><field var='c' type='jid-multi'><value>a@b.example</value></field></x></query>`,
 	`<data xmlns='urn:xmpp:bob' cid='sha1+8f35fef110ffc5df08d579a50083ff9308fb6242@bob.xmpp.org' type='image/png' max-age='86400'>aGVsbG8=</data>`,
+	`<command xmlns='http://jabber.org/protocol/commands' sessionid='s1' node='cfg' status='executing'><actions execute='next'><prev/><next/><complete/></actions><note type='info'>n</note><x xmlns='jabber:x:data' type='form'><field var='a' type='text-multi'><value>l1</value><value>l2</value></field></x></command>`,
+	`<command xmlns='http://jabber.org/protocol/commands' sessionid='s1' node='cfg' status='completed'><note type='warn'>done</note></command>`,
+	`<pubsub xmlns='http://jabber.org/protocol/pubsub'><publish node='n'><item id='i9'/></publish></pubsub>`,
+	`<pubsub xmlns='http://jabber.org/protocol/pubsub#owner'><configure node='n'><x xmlns='jabber:x:data' type='form'><field var='FORM_TYPE' type='hidden'><value>http://jabber.org/protocol/pubsub#node_config</value></field><field var='pubsub#title' type='text-single'><value>t</value></field></x></configure></pubsub>`,
+	`<pubsub xmlns='http://jabber.org/protocol/pubsub#owner'><default><x xmlns='jabber:x:data' type='form'><field var='pubsub#max_items' type='text-single'><value>5</value></field></x></default></pubsub>`,
 	``,
 }
 
@@ -465,7 +551,8 @@ func c09Helpers(rc *RC) {
 	if e == nil {
 		return
 	}
-	m, _, _, _, _ := c09Mux(rc, e, e.NS)
+	m, _, hh, _, _ := c09Mux(rc, e, e.NS)
+	c09Hist = hh
 	serveT := e.Serve(m)
 	h := c09Helpers_[ch.Int("workload", len(c09Helpers_))]
 	// the peer answers every get/set IQ with a drawn reply
